@@ -1,0 +1,22 @@
+//go:build verif
+
+// Verification hook for the command line (build tag `verif` only; add-only,
+// no behaviour of the normal build depends on this file).
+
+package caddycmd
+
+import "io"
+
+// VerifRunCommand builds the real root command (every registered command with
+// its own flag definitions, exactly as Main does) and executes it in-process
+// with the given arguments, e.g. {"reload", "--config", "f.json", "--force"}.
+// Unlike Main it returns the command's error instead of exiting the process.
+func VerifRunCommand(args []string) error {
+	root := defaultFactory.Build()
+	root.SetArgs(args)
+	root.SetOut(io.Discard)
+	root.SetErr(io.Discard)
+	root.SilenceUsage = true
+	root.SilenceErrors = true
+	return root.Execute()
+}
